@@ -87,6 +87,10 @@ def gen_cases(ctx):
                         n = r.randint(2, 8)
                         ks = sorted(set(r.randint(2, 160) for _ in range(n)))
                         c["faults"] = [[k2, r.choice(["rec", "huge_energy", "huge_energy", "nan_logp"])] for k2 in ks]
+                    if kind != "script" and dim > 0 and r.random() < 0.3:
+                        # the chain's first initialisation attempts are rejected (zero gradient at
+                        # the centre of the density): each installs an initial transformation
+                        c["bad_inits"] = r.choice([1, 2, 3])
                     cases.append(c)
                     cid += 1
     return cases
